@@ -41,7 +41,7 @@ Definition size_len_of (o : wopts) : nat :=
   match o_len o with Some n => if ((1 <=? n) && (n <=? 8))%nat then n else O | None => O end.
 
 Definition should_validate (sp : spec) (t : tag) : bool :=
-  match get_type sp (tag_id t) with
+  match raw_type t (get_type sp (tag_id t)) with
   | None => false
   | Some DMaster => negb (is_end t)
   | Some _ => true
@@ -50,7 +50,7 @@ Definition should_validate (sp : spec) (t : tag) : bool :=
 (* what buffer_tag does once the three guards have passed *)
 Definition buffer_act (sp : spec) (t : tag) (o : wopts) (st : wst) : wst * wres :=
   let id := tag_id t in
-  let ty := get_type sp id in
+  let ty := raw_type t (get_type sp id) in
   if o_unknown o then
     match t with
     | TStart _ => (start_unknown_size_tag st id, WOk)
@@ -77,12 +77,43 @@ Definition buffer_act (sp : spec) (t : tag) (o : wopts) (st : wst) : wst * wres 
 
 Lemma buffer_tag_eq sp t o st :
   buffer_tag sp t o st =
-  if o_unknown o && negb (is_master_ty (get_type sp (tag_id t))) then (st, WErr ESize) else
-  if is_master_ty (get_type sp (tag_id t)) && negb (is_master_tag t) then (st, WPanic) else
+  if o_unknown o && negb (is_master_ty (raw_type t (get_type sp (tag_id t)))) then (st, WErr ESize) else
+  if is_master_ty (raw_type t (get_type sp (tag_id t))) && negb (is_master_tag t) then (st, WPanic) else
   if should_validate sp t && negb (w_validate sp (tag_id t) (w_open st))
   then (st, WErr (EUnexpectedTag (tag_id t) (rev (open_ids (w_open st)))))
   else buffer_act sp t o st.
 Proof. destruct t; reflexivity. Qed.
+
+(* ---- raw_type (fix D27): the declared type is looked through unless a tag that answers as_binary() (a raw tag, or a
+   binary-valued one) has an id declared with a non-binary type; then the tag is treated like one with an undeclared id *)
+Lemma raw_type_id t ty :
+  match t with TElem _ (VRaw _) | TElem _ (VB _) => ty = Some DBinary \/ ty = None | _ => True end ->
+  raw_type t ty = ty.
+Proof.
+  destruct t as [id v| | |]; try reflexivity. destruct v; try reflexivity; intros [->| ->]; reflexivity.
+Qed.
+
+Lemma raw_type_none t : raw_type t None = None.
+Proof. destruct t as [id v| | |]; try reflexivity. destruct v; reflexivity. Qed.
+
+Lemma raw_type_some t ty d : raw_type t ty = Some d -> ty = Some d.
+Proof.
+  destruct t as [id v| | |]; try (intros H; exact H).
+  destruct v; try (intros H; exact H); destruct ty as [[]|]; intros H; first [exact H | discriminate H].
+Qed.
+
+Lemma raw_type_nonelem t ty : is_master_tag t = true -> raw_type t ty = ty.
+Proof. destruct t; [discriminate|reflexivity..]. Qed.
+
+(* replace [raw_type t x] by [x] wherever that holds by computation (t not a raw/binary-valued element) *)
+Ltac raw_simpl :=
+  repeat match goal with
+  | H : context [raw_type ?t ?x] |- _ => progress change (raw_type t x) with x in H
+  | |- context [raw_type ?t ?x] => progress change (raw_type t x) with x
+  end.
+
+Lemma raw_type_raw_nonbinary id data ty : ty <> Some DBinary -> raw_type (TElem id (VRaw data)) ty = None.
+Proof. destruct ty as [[]|]; try reflexivity. intros H. exfalso. apply H. reflexivity. Qed.
 
 Global Opaque buffer_tag.
 
@@ -214,17 +245,17 @@ Qed.
 Lemma buffer_ext sp : forall t, buffer_ext_stmt sp t.
 Proof.
   induction t as [id v|id|id|id cs IHcs] using tag_ind'; unfold buffer_ext_stmt;
-    intros o st0 st st1 r HE H Hside; rewrite buffer_tag_eq in H; cbn [tag_id is_master_tag is_end] in *.
-  all: destruct (o_unknown o && negb (is_master_ty (get_type sp id))) eqn:G1;
+    intros o st0 st st1 r HE H Hside; rewrite buffer_tag_eq in H; unfold should_validate in H; cbn [tag_id is_master_tag is_end] in *; raw_simpl.
+  all: destruct (o_unknown o && negb (is_master_ty _)) eqn:G1;
        [inversion H; subst; split; [exact HE|discriminate]|].
-  all: destruct (is_master_ty (get_type sp id) && negb _) eqn:G2;
+  all: destruct (is_master_ty _ && negb _) eqn:G2;
        [inversion H; subst; split; [exact HE|discriminate]|].
-  all: destruct (should_validate sp _ && negb _) eqn:G3;
+  all: match type of H with (if ?b && negb _ then _ else _) = _ => destruct (b && negb _) eqn:G3 end;
        [inversion H; subst; split; [exact HE|discriminate]|].
-  all: unfold buffer_act in H; cbn [tag_id] in H.
+  all: unfold buffer_act in H; cbn [tag_id] in H; raw_simpl.
   - (* element *)
     destruct (o_unknown o); [inversion H; subst; split; [exact HE|discriminate]|].
-    destruct (get_type sp id) as [[]|] eqn:Ety;
+    destruct (raw_type (TElem id v) (get_type sp id)) as [[]|] eqn:Ety;
       try (inversion H; subst; split; [exact HE|discriminate]);
       (destruct (ext_write_element _ _ _ _ _ _ _ _ HE H) as [HE1 Ho]; split; [exact HE1|intros _ _; rewrite Ho; lia]).
   - (* start *)
@@ -387,13 +418,13 @@ Qed.
 Lemma buffer_dest sp : forall t, buffer_dest_stmt sp t.
 Proof.
   induction t as [id v|id|id|id cs IHcs] using tag_ind'; unfold buffer_dest_stmt;
-    intros o st st1 r H; rewrite buffer_tag_eq in H; cbn [tag_id is_master_tag is_end] in *.
-  all: destruct (o_unknown o && negb (is_master_ty (get_type sp id))); [inversion H; split; reflexivity|].
-  all: destruct (is_master_ty (get_type sp id) && negb _); [inversion H; split; reflexivity|].
+    intros o st st1 r H; rewrite buffer_tag_eq in H; cbn [tag_id is_master_tag is_end] in *; raw_simpl.
+  all: destruct (o_unknown o && negb (is_master_ty _)); [inversion H; split; reflexivity|].
+  all: destruct (is_master_ty _ && negb _); [inversion H; split; reflexivity|].
   all: destruct (should_validate sp _ && negb _); [inversion H; split; reflexivity|].
-  all: unfold buffer_act in H; cbn [tag_id] in H.
+  all: unfold buffer_act in H; cbn [tag_id] in H; raw_simpl.
   - destruct (o_unknown o); [inversion H; split; reflexivity|].
-    destruct (get_type sp id) as [[]|]; try (inversion H; split; reflexivity); eapply write_element_dest, H.
+    destruct (raw_type (TElem id v) (get_type sp id)) as [[]|]; try (inversion H; split; reflexivity); eapply write_element_dest, H.
   - destruct (o_unknown o); [inversion H; split; reflexivity|].
     destruct (get_type sp id) as [[]|]; try (inversion H; split; reflexivity);
       destruct (is_vint id); inversion H; split; reflexivity.
@@ -538,7 +569,11 @@ Theorem writer_rejects sp t o st :
   ~ Matches (get_path sp (tag_id t)) (rev (open_ids (w_open st))) ->
   buffer_tag sp t o st = (st, WErr (EUnexpectedTag (tag_id t) (rev (open_ids (w_open st))))).
 Proof.
-  intros Hv G1 G2 Hm. rewrite buffer_tag_eq, G1, G2, Hv.
+  intros Hv G1 G2 Hm.
+  assert (Er : raw_type t (get_type sp (tag_id t)) = get_type sp (tag_id t)).
+  { unfold should_validate in Hv. destruct (raw_type t (get_type sp (tag_id t))) as [d|] eqn:E; [|discriminate Hv].
+    symmetry. eapply raw_type_some, E. }
+  rewrite buffer_tag_eq, Er, G1, G2, Hv.
   destruct (w_validate sp (tag_id t) (w_open st)) eqn:E; [apply w_validate_spec in E; contradiction|reflexivity].
 Qed.
 
@@ -548,7 +583,13 @@ Theorem writer_accepts sp t o st :
   (is_master_ty (get_type sp (tag_id t)) && negb (is_master_tag t) = false) ->
   buffer_tag sp t o st = buffer_act sp t o st.
 Proof.
-  intros Hm G1 G2. rewrite buffer_tag_eq, G1, G2. apply w_validate_spec in Hm. rewrite Hm, Bool.andb_false_r. reflexivity.
+  intros Hm G1 G2. rewrite buffer_tag_eq. apply w_validate_spec in Hm. rewrite Hm, Bool.andb_false_r.
+  destruct (raw_type t (get_type sp (tag_id t))) as [d|] eqn:E.
+  - apply raw_type_some in E. rewrite <- E, G1, G2. reflexivity.
+  - cbn [is_master_ty]. cbn [andb]. destruct (o_unknown o) eqn:Eu; [|reflexivity]. exfalso.
+    cbn [andb] in G1. destruct (is_master_ty (get_type sp (tag_id t))) eqn:Em; [|discriminate G1].
+    cbn [andb] in G2. destruct t as [id v| | |]; try (raw_simpl; rewrite E in Em; discriminate Em).
+    discriminate G2.
 Qed.
 
 (* ------------------------------------------------------------------ C09 *)
@@ -559,26 +600,26 @@ Theorem full_is_start_children_end sp id cs o st st2 :
                   children_loop sp (S (length (w_open st))) cs st1 = (stc, WOk) /\
                   buffer_tag sp (TEnd id) o_default stc = (st2, WOk).
 Proof.
-  intros H. rewrite buffer_tag_eq in H. cbn [tag_id is_master_tag is_end] in H.
+  intros H. rewrite buffer_tag_eq in H. cbn [tag_id is_master_tag is_end] in H. raw_simpl.
   destruct (o_unknown o && negb (is_master_ty (get_type sp id))) eqn:G1; [inversion H|].
   rewrite Bool.andb_false_r in H.
   destruct (should_validate sp (TFull id cs) && negb _) eqn:G3; [inversion H|].
   assert (Hty : get_type sp id = Some DMaster).
-  { unfold buffer_act in H. cbn [tag_id] in H. destruct (o_unknown o) eqn:Eu.
+  { unfold buffer_act in H. cbn [tag_id] in H. raw_simpl. destruct (o_unknown o) eqn:Eu.
     - cbn in G1. destruct (get_type sp id) as [[]|]; try discriminate. reflexivity.
     - destruct (get_type sp id) as [[]|]; try (inversion H; fail); try reflexivity. destruct (is_vint id); inversion H. }
   assert (Hend : forall stc, end_tag stc id = (st2, WOk) -> buffer_tag sp (TEnd id) o_default stc = (st2, WOk)).
   { intros stc He. rewrite buffer_tag_eq. unfold should_validate, buffer_act.
-    cbn [tag_id is_master_tag is_end o_default o_unknown]. rewrite !Hty. cbn. exact He. }
+    cbn [tag_id is_master_tag is_end o_default o_unknown]. raw_simpl. rewrite !Hty. cbn. exact He. }
   assert (Hstart : forall stS, buffer_act sp (TStart id) o st = (stS, WOk) -> buffer_tag sp (TStart id) o st = (stS, WOk)).
-  { intros stS Hs. rewrite buffer_tag_eq. cbn [tag_id is_master_tag is_end]. rewrite G1, Bool.andb_false_r.
-    unfold should_validate in *. cbn [tag_id is_end] in *. rewrite Hty in *. cbn in *. rewrite G3. exact Hs. }
-  unfold buffer_act in H. cbn [tag_id] in H. rewrite Hty in H.
+  { intros stS Hs. rewrite buffer_tag_eq. cbn [tag_id is_master_tag is_end]. raw_simpl. rewrite G1, Bool.andb_false_r.
+    unfold should_validate in *. cbn [tag_id is_end] in *. raw_simpl. rewrite Hty in *. cbn in *. rewrite G3. exact Hs. }
+  unfold buffer_act in H. cbn [tag_id] in H. raw_simpl. rewrite Hty in H.
   destruct (o_unknown o) eqn:Eu.
   - destruct (children_loop _ _ _ _) as [stc rc] eqn:Ec. destruct rc; try (inversion H; fail).
     exists (start_unknown_size_tag st id), stc. split; [apply Hstart; unfold buffer_act; rewrite Eu; reflexivity|]. split; [exact Ec|apply Hend, H].
   - destruct (children_loop _ _ _ _) as [stc rc] eqn:Ec. destruct rc; try (inversion H; fail).
-    exists (start_tag st id (size_len_of o)), stc. split; [apply Hstart; unfold buffer_act; rewrite Eu; cbn [tag_id]; rewrite Hty; reflexivity|]. split; [exact Ec|apply Hend, H].
+    exists (start_tag st id (size_len_of o)), stc. split; [apply Hstart; unfold buffer_act; rewrite Eu; cbn [tag_id]; raw_simpl; rewrite Hty; reflexivity|]. split; [exact Ec|apply Hend, H].
 Qed.
 
 (* an explicit width is honoured exactly and touches the size field only: the bytes appended by an element write are
